@@ -17,6 +17,14 @@
 (* "getnf"                             x = NF                              *)
 (* "incr"    k                         $(k)++    (fields that are small    *)
 (*                                     non-negative integers or non-numeric)*)
+(* "augf"    k, d                      $(k) += d  (same fields)            *)
+(* "subf"    k, gl, re, rp, text       sub / gsub(/re/, rp, $(k)): when at *)
+(*                                     least one match is replaced this is *)
+(*                                     an assignment to $(k) (also when    *)
+(*                                     the text comes out the same); with  *)
+(*                                     no match nothing changes; the call  *)
+(*                                     returns the number of replacements  *)
+(* "getlinef" k, s                     getline $(k)   (next input line)    *)
 (* Numeric arguments carry, next to the integer the language truncates     *)
 (* them to (k, m), the AWK source text they are written as (src), so that  *)
 (* fractional and string spellings are part of the menu.                   *)
@@ -44,11 +52,16 @@ Apply(rc, act) ==
     [] act.op = "getf"   -> rc
     [] act.op = "getnf"  -> rc
     [] act.op = "incr"   -> RecSetField(rc, act.k, IntStr(SmallNum(RecGet(rc, act.k)) + 1))
+    [] act.op = "augf"   -> RecSetField(rc, act.k, IntStr(SmallNum(RecGet(rc, act.k)) + act.d))
+    [] act.op = "subf"   -> LET res == Substitute(act.re, act.rp, RecGet(rc, act.k), act.gl)
+                            IN IF res[2] = 0 THEN rc ELSE RecSetField(rc, act.k, res[1])
+    [] act.op = "getlinef" -> RecSetField(rc, act.k, act.s)
 
 \* value produced by a read operation (<<>> for the others)
 ReadValue(rc, act) ==
   CASE act.op = "getf"  -> RecGet(rc, act.k)
     [] act.op = "getnf" -> IntStr(RecNF(rc))
+    [] act.op = "subf"  -> IntStr(Substitute(act.re, act.rp, RecGet(rc, act.k), act.gl)[2])
     [] OTHER -> <<>>
 
 LazyApply(lz, act) ==
@@ -63,9 +76,16 @@ LazyApply(lz, act) ==
     [] act.op = "getnf"  -> LazyGetNF(lz)[1]
     [] act.op = "incr"   -> LET gv == LazyGet(lz, act.k)
                             IN LazySetField(gv[1], act.k, IntStr(SmallNum(gv[2]) + 1))
+    [] act.op = "augf"   -> LET gv == LazyGet(lz, act.k)
+                            IN LazySetField(gv[1], act.k, IntStr(SmallNum(gv[2]) + act.d))
+    [] act.op = "subf"   -> LET gv == LazyGet(lz, act.k)
+                                res == Substitute(act.re, act.rp, gv[2], act.gl)
+                            IN IF res[2] = 0 THEN gv[1] ELSE LazySetField(gv[1], act.k, res[1])
+    [] act.op = "getlinef" -> LazySetField(lz, act.k, act.s)
 LazyReadValue(lz, act) ==
   CASE act.op = "getf"  -> LazyGet(lz, act.k)[2]
     [] act.op = "getnf" -> IntStr(LazyGetNF(lz)[2])
+    [] act.op = "subf"  -> IntStr(Substitute(act.re, act.rp, LazyGet(lz, act.k)[2], act.gl)[2])
     [] OTHER -> <<>>
 
 \* An instance is enabled when the machine has not failed and the record stays inside the
@@ -75,13 +95,14 @@ LazyReadValue(lz, act) ==
 \* so the conformance harness accepts either "unchanged" or "error" for those steps
 \* (NegOutOfRange) -- but never a change to some other field.
 NegOutOfRange(rc, act) ==
-  act.op \in {"setf", "getf", "incr"} /\ act.k < 0 /\ 0 - act.k > RecNF(rc)
+  act.op \in {"setf", "getf", "incr", "augf", "subf", "getlinef"} /\ act.k < 0 /\ 0 - act.k > RecNF(rc)
 
 Enabled(rc, act, maxNF) ==
   /\ ~rc.err
   /\ act.op = "setf" => (act.k <= MaxField => act.k <= maxNF)
   /\ act.op = "setnf" => (act.m <= MaxField => act.m <= maxNF)
-  /\ act.op = "incr" => /\ act.k # 0 /\ act.k <= maxNF
-                        /\ IncrOK(RecGet(rc, act.k))
-                        /\ SmallNum(RecGet(rc, act.k)) < 100
+  /\ act.op \in {"incr", "augf"} => /\ act.k # 0 /\ act.k <= maxNF
+                                     /\ IncrOK(RecGet(rc, act.k))
+                                     /\ SmallNum(RecGet(rc, act.k)) < 100
+  /\ act.op \in {"subf", "getlinef"} => act.k <= maxNF
 =============================================================================
